@@ -1,7 +1,9 @@
 package props
 
 import (
+	"fmt"
 	"math"
+	"reflect"
 	"strings"
 
 	"godsverif/core"
@@ -97,6 +99,64 @@ func runC15NaN(c *core.Ctx) {
 	c.Nontrivial()
 }
 
+// argFreeSnapshot calls every exported method of x that takes no argument and
+// does not mutate, and records the nil-ness of exported pointer fields. Values
+// are rendered with %v; pointers only as nil / non-nil (addresses differ).
+func argFreeSnapshot(x any) map[string]string {
+	out := map[string]string{}
+	v := reflect.ValueOf(x)
+	t := v.Type()
+	render := func(o reflect.Value) string {
+		switch o.Kind() {
+		case reflect.Ptr, reflect.Map, reflect.Func, reflect.Chan:
+			if o.IsNil() {
+				return "nil"
+			}
+			return "non-nil"
+		case reflect.Interface:
+			if o.IsNil() {
+				return "nil"
+			}
+			return fmt.Sprintf("%v", o.Interface())
+		case reflect.Slice:
+			if o.Len() == 0 {
+				return "[]" // nil and empty slices are the same observation
+			}
+		}
+		return fmt.Sprintf("%v", o.Interface())
+	}
+	for i := 0; i < t.NumMethod(); i++ {
+		m := t.Method(i)
+		if v.Method(i).Type().NumIn() != 0 || v.Method(i).Type().NumOut() == 0 {
+			continue
+		}
+		switch m.Name {
+		case "Pop", "Dequeue", "Iterator", "Clear":
+			continue
+		case "Values", "Keys", "String", "ToJSON", "MarshalJSON":
+			continue // compared separately (as multisets for the unordered containers)
+		}
+		var parts []string
+		for _, o := range v.Method(i).Call(nil) {
+			if o.Kind() == reflect.Struct {
+				parts = append(parts, "struct") // iterators by value etc.
+				continue
+			}
+			parts = append(parts, render(o))
+		}
+		out[m.Name+"()"] = strings.Join(parts, ",")
+	}
+	if v.Kind() == reflect.Ptr && v.Elem().Kind() == reflect.Struct {
+		e := v.Elem()
+		for f := 0; f < e.NumField(); f++ {
+			if sf := e.Type().Field(f); sf.IsExported() && e.Field(f).Kind() == reflect.Ptr {
+				out["field "+sf.Name] = render(e.Field(f))
+			}
+		}
+	}
+	return out
+}
+
 func runC15(c *core.Ctx) {
 	r := c.R
 	if c.Index < hugeCases {
@@ -164,6 +224,14 @@ func runC15(c *core.Ctx) {
 	}
 	fresh := d.Fresh()
 	compare := func(when string) {
+		// every argument-free exported method (Height, Left, Right, LeftKey, Min,
+		// Max, Peek, Full, ...) and the nil-ness of exported pointer fields (Root)
+		sc0, sf0 := argFreeSnapshot(d.Raw), argFreeSnapshot(fresh.Raw)
+		for _, name := range core.SortedKeys(sf0) {
+			if sc0[name] != sf0[name] {
+				c.Fail("clear", "differs-from-fresh-"+name, "%s(%s %s) cleared after %d elements vs freshly constructed, %s: %s is %s on the cleared container and %s on the fresh one", kind, d.Elem, d.Config, wasSize, when, name, sc0[name], sf0[name])
+			}
+		}
 		oc, of := d.Observe(true), fresh.Observe(true)
 		if diff := oc.Diff(of); diff != "" {
 			c.Fail("clear", "differs-from-fresh", "%s(%s %s) cleared after %d elements vs freshly constructed, %s: %s", kind, d.Elem, d.Config, wasSize, when, diff)
